@@ -128,7 +128,11 @@ Proof. vm_compute. repeat split. Qed.
 Theorem C17_model_pins :
   zp_scale_shape = 5412333320397 /\ shape_uniform_quantize = 106400365541119 /\
   shape_round_and_clip = 199905319518080 /\ shape_assign_quantized_type = 259682751756931 /\
-  shape_get_quantized_range = 227305537124413.
+  shape_get_quantized_range = 227305537124413 /\
+  shape_uniform_dequantize = 280373118552801 /\
+  shape_symmetric_quantize_bias_tensor = 80842322323527 /\
+  shape_fix_quantization_params_rank = 157110323541930 /\
+  shape_pack_data = 10948941224577 /\ shape_get_min_max_from_quant_params = 26722420040307.
 Proof. repeat split; reflexivity. Qed.
 Print Assumptions C17_model_pins.
 
